@@ -54,34 +54,25 @@ func c02LineNumbers(c *Ctx, r *Report) {
 		// sends and the composite literal fields
 		var startObj, batchObj types.Object
 		nSends := 0
-		ast.Inspect(fi.Decl.Body, func(n ast.Node) bool {
-			ss, ok := n.(*ast.SendStmt)
-			if !ok {
-				return true
+		for _, st := range sendSitesIn(c, info, fi.Decl.Body) {
+			if !isNamed(st.SentType(info), extractorPkg, "InputBatch") {
+				continue
 			}
-			cl, ok := ast.Unparen(ss.Value).(*ast.CompositeLit)
-			if !ok || !isNamed(info.TypeOf(cl), extractorPkg, "InputBatch") {
-				return true
+			if _, ok := ast.Unparen(st.Stmt.Value).(*ast.CompositeLit); !ok {
+				continue
 			}
 			nSends++
-			fields := map[string]ast.Expr{}
-			for _, el := range cl.Elts {
-				if kv, ok := el.(*ast.KeyValueExpr); ok {
-					fields[exprStr(kv.Key)] = kv.Value
-				}
-			}
-			so, bo := identObj(info, fields["BatchStart"]), identObj(info, fields["Batch"])
+			so, bo := identObj(info, st.Field("BatchStart")), identObj(info, st.Field("Batch"))
 			srcOK := false
 			if fi.Decl.Type.Params != nil && len(fi.Decl.Type.Params.List) > 0 && len(fi.Decl.Type.Params.List[0].Names) > 0 {
-				srcOK = identObj(info, fields["Source"]) == info.Defs[fi.Decl.Type.Params.List[0].Names[0]]
+				srcOK = identObj(info, st.Field("Source")) == info.Defs[fi.Decl.Type.Params.List[0].Names[0]]
 			}
 			if startObj == nil {
 				startObj, batchObj = so, bo
 			}
-			r.Check(so != nil && so == startObj && bo != nil && bo == batchObj && srcOK, rule, fi.Name, "InputBatch{..}", c.Pos(ss.Pos()), "flow: the batch carries the batch slice, the running start line and the source-name parameter",
+			r.Check(so != nil && so == startObj && bo != nil && bo == batchObj && srcOK, rule, fi.Name, "InputBatch{..}", c.Pos(st.Node().Pos()), "flow: the batch carries the batch slice, the running start line and the source-name parameter",
 				"a sent InputBatch does not carry the batch variable, the running BatchStart variable and the function's source-name parameter")
-			return true
-		})
+		}
 		if startObj == nil || batchObj == nil {
 			r.Undecided(rule, fi.Name, "sends", c.Pos(fi.Decl.Pos()), "no InputBatch send found")
 			continue
@@ -140,9 +131,12 @@ func c02LineNumbers(c *Ctx, r *Report) {
 				var seq []string
 				for _, id := range nodes {
 					nd := fg.Nodes[id]
+					for _, st := range nodeSends(c, info, nd) {
+						if isNamed(st.SentType(info), extractorPkg, "InputBatch") {
+							seq = append(seq, "send")
+						}
+					}
 					switch t := nd.N.(type) {
-					case *ast.SendStmt:
-						seq = append(seq, "send")
 					case *ast.AssignStmt:
 						if len(t.Lhs) == 1 && identObj(info, t.Lhs[0]) == startObj {
 							seq = append(seq, "advance")
@@ -242,8 +236,8 @@ func c02LineNumbers(c *Ctx, r *Report) {
 func c02Unsafe(c *Ctx, r *Report) {
 	const rule = "C02-b/unsafe-view"
 	audited := map[string]bool{
-		"rare/pkg/extractor.(*extractorInstance).processLineSync": true,
-		"rare/pkg/matchers/dissect.(*Dissect).FindSubmatchIndex":  true,
+		"rare/pkg/extractor.(*extractorInstance).processLineSync":        true,
+		"rare/pkg/matchers/dissect.(*Dissect).FindSubmatchIndex":         true,
 		"rare/pkg/matchers/dissect.(*DissectInstance).FindSubmatchIndex": true,
 	}
 	n := 0
